@@ -264,4 +264,71 @@ def _leaves(b):
     return [b]
 
 
-FACETS = [Budgets()]
+class TargetTranslation(Facet):
+    """Metamorphic relation for the target-fitness budget that does not encode the tolerance:
+    'within tolerance of the target' must not depend on where the target lies. The same sequence
+    of distances to the target, replayed at targets 0, 1, 1000 and 10**6, must stop the search at
+    the same evaluation."""
+
+    name = "target_fitness_translation_invariance"
+
+    def budget(self, tier):
+        return (150, 2) if tier == "quick" else (1000, 8)
+
+    def strategy(self, tier):
+        dist = st.sampled_from([0.0, 0.0, 1e-7, 1e-6, 0.015625, 0.5, 3.0, 64.0])
+        return st.builds(
+            lambda ds, alg, below, cap: {"distances": ds, "alg": alg, "below": below, "cap": cap},
+            st.lists(dist, min_size=1, max_size=12),
+            st.sampled_from(["rs", "1p1"]),
+            st.booleans(),
+            st.integers(12, 20),
+        )
+
+    def run(self, case, rec):
+        from geneticengine.algorithms.one_plus_one import OnePlusOne
+        from geneticengine.algorithms.random_search import RandomSearch
+        from geneticengine.evaluation.budget import AnyOf, EvaluationBudget, TargetFitness
+        from geneticengine.problems import SingleObjectiveProblem
+        from geneticengine.random.sources import NativeRandomSource
+        from vk.props.c15 import make_world
+
+        ds = case["distances"]
+        stops = {}
+        w = make_world(11)
+        try:
+            for shift in (0.0, 1.0, 1024.0, 1048576.0):
+                calls = []
+
+                def ff(p, shift=shift, calls=calls):
+                    i = len(calls)
+                    d = ds[i] if i < len(ds) else 64.0
+                    v = shift - d if case["below"] else shift + d
+                    calls.append(v)
+                    return v
+
+                # approach the target from below when maximising, from above when minimising, so the best
+                # so far is always the value closest to the target
+                problem = SingleObjectiveProblem(ff, minimize=not case["below"])
+                budget = AnyOf(TargetFitness(shift), EvaluationBudget(case["cap"]))
+                cls = RandomSearch if case["alg"] == "rs" else OnePlusOne
+                try:
+                    cls(problem=problem, budget=budget, representation=w.rep, random=NativeRandomSource(3)).search()
+                except Exception as e:  # noqa: BLE001
+                    rec.discard()
+                    rec.label("discarded:" + type(e).__name__)
+                    return
+                stops[shift] = len(calls)
+            rec.sample({"distances": ds, "stops": {str(k): v for k, v in stops.items()}}, limit=2)
+            if len(set(stops.values())) > 1:
+                rec.fail(
+                    "C14/target-fitness/stop-point-depends-on-the-target's-magnitude",
+                    f"distances to the target {ds} ({'from below' if case['below'] else 'from above'}, {case['alg']}): the search stopped after {stops} evaluations for targets 0/1/1024/2**20 - being within tolerance must not depend on the magnitude of the target",
+                )
+            if min(ds) < 1e-3 and len(ds) >= 3:
+                rec.nontrivial(case)
+        finally:
+            w.cleanup()
+
+
+FACETS = [Budgets(), TargetTranslation()]
